@@ -47,6 +47,18 @@ func checkCrossover(c *RunCtx, res *OpResult) {
 	if d1, d2 := p2.Dump(true), res.AfterB.Dump(true); d1 != d2 {
 		c.Fail("parent-modified", "second parent changed: %s\n%s", FirstDiff(d1, d2), ctx())
 	}
+	// ... and out of the child's reach: a child that shares a trait, node or link object (or a parameter array) with a
+	// parent lets the mutation that follows every mating in reproduction rewrite the parent
+	if res.ParentA != nil {
+		if d := sharedState(res.ParentA, res.Child); d != "" {
+			c.Fail("child-shares-parent-state", "the child shares mutable state with its first parent: %s\n%s", d, ctx())
+		}
+	}
+	if res.ParentB != nil {
+		if d := sharedState(res.ParentB, res.Child); d != "" {
+			c.Fail("child-shares-parent-state", "the child shares mutable state with its second parent: %s\n%s", d, ctx())
+		}
+	}
 	i1, i2 := indexGenes(p1), indexGenes(p2)
 	seen := map[int64]bool{}
 	fromP1Only, fromP2Only := 0, 0
